@@ -20,7 +20,7 @@ from basictdf import Tdf  # noqa: E402
 from basictdf.tdfBlock import BlockType  # noqa: E402
 
 MUTATORS = ["add_block", "remove_block", "replace_block", "set:data3D", "set:force_and_torque",
-            "set:force_platforms_data", "set:events", "set:emg"]
+            "set:force_platforms_data", "set:events", "set:emg", "replace_block(identical)", "set(identical)"]
 SETKIND = {"data3D": "data3D", "force_and_torque": "force3D", "force_platforms_data": "platData",
            "events": "events", "emg": "emg"}
 READERS = ["blocks", "get_block(type)", "get_block(int)", "[]", "data3D", "force_and_torque",
@@ -65,6 +65,24 @@ def mutator_call(rng, t, mut, present):
     if mut == "remove_block":
         k = rng.choice(sorted(present)) if present else "events"
         return (lambda: t.remove_block(lib.BLOCK_TYPE[k])), f"remove_block({k})", k
+    if mut in ("replace_block(identical)", "set(identical)"):
+        # put back exactly what the file already holds: nothing would change, but outside a write-enabled
+        # context the call must be refused all the same
+        cands = [k for k in sorted(present) if mut.startswith("replace") or k in SETKIND.values()]
+        if not cands:
+            k = "events"
+            blk = lib.build(C.small_block_spec(rng, k), {})
+        else:
+            k = rng.choice(cands)
+            try:
+                with Tdf(t.file_path) as reader:
+                    blk = reader.get_block(lib.BLOCK_TYPE[k])
+            except Exception:
+                blk = lib.build(C.small_block_spec(rng, k), {})
+        if mut.startswith("replace"):
+            return (lambda: t.replace_block(blk)), f"replace_block(<{k} as stored>)", k
+        attr = next(a for a, kk in SETKIND.items() if kk == k)
+        return (lambda: setattr(t, attr, blk)), f"{attr}=<{k} as stored>", k
     if mut == "replace_block":
         k = rng.choice(sorted(present)) if present else "events"
         blk = lib.build(C.small_block_spec(rng, k), {})
